@@ -352,6 +352,17 @@ def impl_e2e(a):
                 vals.append([norm(m[0])] if m else [])
             obs.append([norm('k' + who[0][1:]), vals])
         return obs
+    def align(res):
+        """the stock styles sort differently: put the Python observations into the order of the BST ones
+        (entries are identified by key), leftovers at the end"""
+        if len(res) == 2 and res[0][:1] == [0] and res[1][:1] == [0]:
+            py = list(res[1][1][1]); out = []
+            for o in res[0][1][1]:
+                for q in py:
+                    if S(q[0]).lower() == S(o[0]).lower():
+                        out.append(q); py.remove(q); break
+            res[1][1][1] = out + py
+        return res
     res = []
     for run in (run_bst, run_py):
         try:
@@ -364,7 +375,7 @@ def impl_e2e(a):
             raise
         except Exception:
             res.append([2])
-    return res
+    return align(res)
 FUNCS = {
     1: ('Entry._find_field', guarded(impl_find_field), ('T', DB_SCH, E_SCH, 'S', 'B')),
     2: ('interpreter Field.value / Crossref.value', guarded(impl_field_value), ('T', DB_SCH, E_SCH, 'S')),
@@ -378,19 +389,8 @@ FUNCS = {
     9: ('Entry._find_field, every entry x every name', guarded(impl_find_all), ('T', DB_SCH, ('L', 'S'), 'B')),
 }
 
-def canon(fn, r):
-    """error classes/wording are not compared; of a report only its kind (bad cross-reference / other)"""
-    r = canon_res(r)
-    kinds = lambda rs: [(x[0] if isinstance(x, list) else x) for x in rs]
-    if fn == 4 and isinstance(r, list) and len(r) == 2:
-        return [r[0], kinds(r[1])]
-    if fn in (5, 6) and isinstance(r, list) and r[:1] == [0]:
-        return [0, [kinds(r[1][0]), r[1][1]]]
-    if fn == 10 and isinstance(r, list) and len(r) == 2:
-        # the stock styles sort differently: entries are compared by (lower-cased) key, not by position
-        low = lambda k: [c + 32 if 65 <= c < 91 else c for c in k]
-        return [([0, [kinds(x[1][0]), sorted([low(o[0]), o[1]] for o in x[1][1])]] if x[:1] == [0] else canon_res(x)) for x in r]
-    return r
+# comparison: core's default (error classes / wording not compared).  Reports travel as kinds on both sides
+# (0 = bad cross-reference, 1 = other), so that --replay, which uses the default comparison, works too.
 
 # ----------------------------------------------------------------------------------------
 # the property, re-stated in plain Python over the spec (independent of pybtex)
@@ -873,4 +873,7 @@ TRUSTED_BASE = ['modelled (not verified) code: pybtex/database/__init__.py Entry
 ASSUMPTIONS = ['keys and field names are ASCII (str.lower modelled on ASCII)',
                'cross-reference chains stay below CPython\'s recursion limit (498 hops from the top level at the default limit of 1000; deeper chains raise RecursionError); the model has no recursion limit',
                'object identity: two Entry objects with the same identity have the same content (trivially true in Python; a hypothesis ids_wf of the chain theorems)']
-PARTIAL = []
+PARTIAL = ['engines_agree / engines_agree_field are about ONE database handed to both engines; that the two engines build their databases differently from .bib text (BST: author/editor are fields, Python: persons) is outside the model and is covered by the end-to-end stream (title/year/note, four stock styles) only',
+           'the chain theorems (find_field_spec, inherits_nearest, missing_along_chain) assume object identity ids_wf; find_terminates and own_field_wins do not',
+           'CPython\'s recursion limit is not modelled: beyond 498 hops the implementation raises RecursionError (terminates, but not with a value)',
+           'the BST variable named crossref (Crossref.value) is excluded from engines_agree: it is the resolved key, not an inherited field']
